@@ -118,6 +118,8 @@ inductive Tok where
   | dot
   | isize (s : IntSz)
   | str (s : String)         -- STRING_LITERAL (content without the quotes)
+  | secname (s : String)     -- SECTION_NAME (the whole text, `$` included)
+  | blob (s : String)        -- BINARY_BLOB (the hexadecimal digits, blanks removed)
   | other (name : String)    -- any other token (`~`, `?`, `:`, `;`, `{`, …, ERROR)
   deriving DecidableEq, Repr, Inhabited
 
@@ -219,6 +221,17 @@ def isSizeAt (c : Char) (p1 p2 : Option Char) : Bool :=
   (c == 'w' || c == 'h' || c == 'b') && p1 == some '.' && (match p2 with | some d => isHexDigit d | none => false)
 def sizeOfChar (c : Char) : IntSz := if c == 'w' then .w else if c == 'h' then .h else .b
 def isSectionNameChar (d : Char) : Bool := isIdChar d || ".*?-^[]".toList.contains d
+/-- BINARY_BLOB `\{\{([0-9a-fA-F]{2}| )+\}\}` after the opening `{{`: pairs of hexadecimal digits and blanks (at least one item)
+    up to `}}`; returns the digits and the text after the blob.  The alternatives of the group start with different characters,
+    so the regex engine never backtracks into another reading. -/
+def scanBlobBody : List Char → List Char → Bool → Option (List Char × List Char)
+  | ' ' :: cs, acc, _ => scanBlobBody cs acc true
+  | '}' :: '}' :: cs, acc, any => if any then some (acc.reverse, cs) else none
+  | a :: b :: cs, acc, _ => if isHexDigit a && isHexDigit b then scanBlobBody cs (b :: a :: acc) true else none
+  | _, _, _ => none
+/-- the BINARY_BLOB rule at `c :: cs` -/
+def scanBlob (c : Char) (cs : List Char) : Option (List Char × List Char) :=
+  if c == '{' && cs.head? == some '{' then scanBlobBody (cs.drop 1) [] false else none
 /-- previous two characters after `consumed` has been read -/
 def prevAfter (consumed : List Char) (p1 p2 : Option Char) : Option Char × Option Char :=
   let l := consumed.length
@@ -233,6 +246,15 @@ def wordTok (sources : List String) (w : String) : Tok :=
     else if p.2 == "DEFINED" then .defined
     else .kw p.2
   | none => if sources.contains w then .source w else .ident w
+
+/-- value of a character literal `'body'`: the UTF-8 bytes of the body read as one big-endian number (`'dude'` = 0x64756465) -/
+def utf8Bytes (c : Char) : List Nat :=
+  let n := c.toNat
+  if n < 0x80 then [n]
+  else if n < 0x800 then [0xC0 + n / 64, 0x80 + n % 64]
+  else if n < 0x10000 then [0xE0 + n / 4096, 0x80 + n / 64 % 64, 0x80 + n % 64]
+  else [0xF0 + n / 262144, 0x80 + n / 4096 % 64, 0x80 + n / 64 % 64, 0x80 + n % 64]
+def charLitVal (body : List Char) : Nat := (body.flatMap utf8Bytes).foldl (fun acc b => acc * 256 + b) 0
 
 def lexAux (sources : List String) : Nat → List Char → Option Char → Option Char → List Tok → Except LexErr (List Tok)
   | 0, _, _, _, acc => .ok acc.reverse
@@ -271,16 +293,19 @@ def lexAux (sources : List String) : Nat → List Char → Option Char → Optio
       | some (body, rest) =>
         if body.isEmpty then .error .value
         else
-          let bytes := (String.ofList body).toUTF8.toList
           lexAux sources fuel rest (prevAfter ('\'' :: body ++ ['\'']) p1 p2).1 (prevAfter ('\'' :: body ++ ['\'']) p1 p2).2
-            (.num (bytes.foldl (fun acc b => acc * 256 + b.toNat) 0) :: acc)
+            (.num (charLitVal body) :: acc)
       | none => lexAux sources fuel cs (some c) p1 (.other "ERROR" :: acc)
     -- SECTION_NAME `\$[\w\.\*\?\-\^\[\]]+`
     else if c == '$' && (match cs with | d :: _ => isSectionNameChar d | [] => false) then
       let body := cs.takeWhile isSectionNameChar
       lexAux sources fuel (cs.drop body.length) (prevAfter (c :: body) p1 p2).1 (prevAfter (c :: body) p1 p2).2
-        (.other "SECTION_NAME" :: acc)
-    -- BINARY_BLOB `\{\{([0-9a-fA-F]{2}| )+\}\}` is not needed inside expressions: `{` is an `other` token
+        (.secname (String.ofList (c :: body)) :: acc)
+    -- BINARY_BLOB `\{\{([0-9a-fA-F]{2}| )+\}\}` (before LBRACE in the lexer's priority order)
+    else if (scanBlob c cs).isSome then
+      match scanBlob c cs with
+      | some (hex, rest) => lexAux sources fuel rest (some '}') (some '}') (.blob (String.ofList hex) :: acc)
+      | none => .ok acc.reverse
     else if c == '"' then
       match quoted '"' (!nonGreedyQuotes) cs with
       | some (body, rest) =>
@@ -291,7 +316,56 @@ def lexAux (sources : List String) : Nat → List Char → Option Char → Optio
       | some (name, len) =>
         lexAux sources fuel ((c :: cs).drop len) (prevAfter ((c :: cs).take len) p1 p2).1 (prevAfter ((c :: cs).take len) p1 p2).2
           (simpleTok name :: acc)
-      | none => lexAux sources fuel cs (some c) p1 (.other "ERROR" :: acc)
+      | none =>
+        -- `literals` of the lexer (single characters that are their own token type), else the error rule
+        if BdGrammar.literals.contains (String.singleton c) then lexAux sources fuel cs (some c) p1 (.other (String.singleton c) :: acc)
+        else lexAux sources fuel cs (some c) p1 (.other "ERROR" :: acc)
+
+/-! #### the single rules, as the lexer above applies them (compared with the CURRENT regexes on generated probe texts) -/
+
+/-- length the named rule matches at the start of `cs` (the expressions are those of the branches of `lexAux`) -/
+def ruleLen (rule : String) (cs : List Char) : Option Nat :=
+  match cs with
+  | [] => none
+  | c :: r =>
+    if rule == "COMMENT" then
+      if isLineComment c r then some ((c :: r).takeWhile (· != '\n')).length
+      else if isBlockComment c r then (splitAt? ['*', '/'] (r.drop 1)).map (fun ab => ab.1.length + 4)
+      else none
+    else if rule == "IDENT" then (if isIdStart c then some ((c :: r).takeWhile isIdChar).length else none)
+    else if rule == "SECTION_NAME" then
+      (if c == '$' && (match r with | d :: _ => isSectionNameChar d | [] => false) then some ((r.takeWhile isSectionNameChar).length + 1)
+       else none)
+    else if rule == "newline" then (if c == '\n' then some 1 else none)
+    else none
+
+/-- INT_LITERAL at the start of `cs`: matched length and value (`none` inside = the rule's action raises) -/
+def intLiteralAt (cs : List Char) : Option (Nat × Option Nat) :=
+  match cs with
+  | [] => none
+  | c :: r =>
+    if c.isDigit then
+      match lexNumber (c :: r) with
+      | some (.ok n, rest) => some ((c :: r).length - rest.length, some n)
+      | some (.error _, rest) => some ((c :: r).length - rest.length, none)
+      | none => none
+    else if c == '\'' then
+      match quoted '\'' (!nonGreedyChars) r with
+      | some (body, _) => some (body.length + 2, if body.isEmpty then none else some (charLitVal body))
+      | none => none
+    else none
+
+/-- BINARY_BLOB at the start of `cs`: matched length and token value -/
+def blobAt (cs : List Char) : Option (Nat × String) :=
+  match cs with
+  | [] => none
+  | c :: r => (scanBlob c r).map (fun hr => ((c :: r).length - hr.2.length, String.ofList hr.1))
+
+/-- INT_SIZE tried at the third character of a three-character text -/
+def intSizeAt (cs : List Char) : Bool :=
+  match cs with
+  | [p2, p1, c] => isSizeAt c (some p1) (some p2)
+  | _ => false
 
 /-- tokens of an expression text; `sources` = identifiers defined in `sources` blocks so far -/
 def lex (sources : List String) (s : String) : Except LexErr (List Tok) :=
